@@ -2,6 +2,7 @@
 from __future__ import annotations
 import time, z3
 from .core import *
+from . import core
 from . import objects as O
 
 
@@ -88,6 +89,8 @@ def _has_quantifier(t):
     while stack:
         x = stack.pop()
         if z3.is_quantifier(x):
+            # lambdas count too: array-valued equalities over lambda terms make the quantifier-free queries
+            # inconclusive ("incomplete (theory array)"), so such hypotheses are left to the full discharge only
             r = True
             break
         i = x.get_id()
@@ -154,6 +157,10 @@ class St:
     def __init__(self, tag="h0"):
         self.pc = []
         self.h = Heap(tag)
+        # kind / class of an object never change: these two arrays are only extended at allocations and are never
+        # havocked by loop cuts, so dispatch on pre-existing objects stays syntactic
+        self.kinds = self.h.kind
+        self.clss = self.h.cls
         self.nalloc = 0
         self.ghost = {}
         self.gmemo = {}
@@ -174,11 +181,12 @@ class St:
     def snapshot(self):
         return (list(self.pc), self.h.copy(), self.nalloc, dict(self.ghost), dict(self.gmemo),
                 len(self.oracle.trail) if self.oracle else 0, list(self.symcls), set(self.classes),
-                set(self.reads), list(self.events), dict(self.tags), set(self.targets))
+                set(self.reads), list(self.events), dict(self.tags), set(self.targets), self.kinds, self.clss)
 
     def restore(self, snap, keep_trail=False):
-        (pc, h, nalloc, ghost, gmemo, ntrail, symcls, classes, reads, events, tags, targets) = snap
+        (pc, h, nalloc, ghost, gmemo, ntrail, symcls, classes, reads, events, tags, targets, kinds, clss) = snap
         self.targets = set(targets)
+        self.kinds, self.clss = kinds, clss
         self.tags = dict(tags)
         self.pc = list(pc)
         self.h = h.copy()
@@ -218,8 +226,15 @@ class St:
         _AXCACHE[key] = ax
         return ax
 
+    def flush_facts(self):
+        pass
+
+    def frame_facts(self):
+        """frame-axiom instances produced by heap reads on this path (always-true facts about named arrays)"""
+        return list(core.PENDING_FACTS)
+
     def full_pc(self):
-        return list(self.pc) + list(self.h.axioms) + self.class_axioms()
+        return list(self.pc) + self.frame_facts() + list(self.h.axioms) + self.class_axioms()
 
     def assume(self, f):
         if z3.is_true(f):
@@ -265,7 +280,7 @@ class St:
 
     def feasible(self, f):
         """pruning only: quantified hypotheses are dropped (more paths explored, never fewer)"""
-        full = self.pc + self.class_axioms()
+        full = self.pc + self.frame_facts() + self.class_axioms()
         pc = [p for p in full if not has_quantifier(p)]
         if check_sat(pc, f) == "unsat":
             return False
@@ -278,7 +293,7 @@ class St:
     def valid(self, f):
         """dispatch-time validity: decided on the quantifier-free part of the pc (+ heap/class axioms).
         Fewer hypotheses => 'valid' answers stay sound; a missed validity only costs precision."""
-        full = self.pc + self.class_axioms()
+        full = self.pc + self.frame_facts() + self.class_axioms()
         pc = [p for p in full if not has_quantifier(p)]
         if check_sat(pc, z3.Not(f)) == "unsat":
             return True
@@ -349,8 +364,11 @@ class St:
         self.nalloc += 1
         rid = self.nalloc
         self.h.kind = z3.Store(self.h.kind, rid, kind)
+        self.kinds = z3.Store(self.kinds, rid, kind)
         if cls is not None:
-            self.h.cls = z3.Store(self.h.cls, rid, cls.cid if isinstance(cls, O.ClassInfo) else cls)
+            cv = cls.cid if isinstance(cls, O.ClassInfo) else cls
+            self.h.cls = z3.Store(self.h.cls, rid, cv)
+            self.clss = z3.Store(self.clss, rid, cv)
         return rid
 
     def new_dict(self):
